@@ -100,6 +100,9 @@ def gen_case(rng, c, tag):
         if kind == "crasher":
             s["crash_bar"] = rng.randint(1, bars - 1)
             s["crash_exc"] = rng.choice(["ZeroDivisionError", "DemeterError", "KeyError"])
+        if kind != "idle" and rng.random() < 0.4:
+            # looks at the account history a few times in mid-run (allowed: the actuator tolerates 10 such reads per backtest)
+            s["df_reads"] = sorted(rng.sample(range(bars), min(bars, rng.randint(2, 5))))
         if kind == "indicator":
             s["window"] = min(windows[i], max(2, bars - 1))
             s["above"] = rng.random() < 0.5
@@ -337,6 +340,9 @@ class PlanStrategy(_StrategyBase):
         ms = sp.get("sleep", {}).get(str(self._bar))
         if ms:
             time.sleep(ms / 1000.0)
+        if self._bar in sp.get("df_reads", ()):
+            hist = self.actuator.account_status_df
+            self._hist_rows = len(hist.index)
         if sp["kind"] == "crasher" and self._bar == sp["crash_bar"]:
             self._trade(snapshot, 1.0)
             self._write("raised")
